@@ -8,6 +8,7 @@ from __future__ import annotations
 import copy
 import inspect
 import itertools
+import time
 
 import core
 from core import Driver
@@ -24,7 +25,7 @@ ASSUMPTIONS = [
     "by the proved reference DPLL",
     "heapq modelled as 'pop the least (-activity, var) entry'; VSIDS activities are IEEE doubles on both sides",
     "termination ('the solver always comes back') is observed as a wall-clock limit per call in a worker process "
-    "(5 s for inputs that take milliseconds, 60 s for the budgeted hard families; a timeout is re-run alone with "
+    "(5 s for inputs that take milliseconds, 20 s for the budgeted hard families; a timeout is re-run alone with "
     "3x the limit before it is reported); the Luby loop's termination is proved on the regenerated source",
     "MAX_ITER on a satisfiable input counts as a failure only for <= 16 variables with budgets >= the defaults "
     "(100000 conflicts / 10000 restarts), the DESIGN's decidable reading of 'budgets not exhausted'",
@@ -232,10 +233,10 @@ def gen_colouring(rng, big):
     return {"family": "colouring", "clauses": cl, "assumptions": asm, "opts": _opts(rng, hard=n * k > 30, enum_ok=n * k <= 16)}
 
 
-def gen_many_models(rng):
+def gen_many_models(rng, thorough=False):
     """few constraints over 11..13 variables, all models requested: > 2000 blocking clauses, restarts every
     conflict or two, so reduce_db runs while blocking clauses are alive"""
-    nv = rng.randint(11, 13)
+    nv = rng.randint(11, 13 if thorough else 12)
     m = rng.randint(3, 8)
     cl = [[rng.choice([1, -1]) * v for v in rng.sample(range(1, nv + 1), rng.choice([2, 3, 3, 4]))] for _ in range(m)]
     cl.append([nv, -nv] if rng.random() < 0.5 else [nv, nv - 1])  # make sure the top variable occurs
@@ -295,9 +296,9 @@ def scope_cases(rng, nv, ncl, maxlen, per_formula, cap=None):
 
 
 def normalize(case):
-    """keep the work of a correct solver small: all-models requests only for <= 13 variable indices (a blocking clause
+    """keep the work of a correct solver small: all-models requests only for <= 12 variable indices (13 in the many_models family) (a blocking clause
     per model makes 10^4 models of a 20-variable formula a matter of minutes in pure Python, legitimately)"""
-    if case["opts"].get("solution_limit", 1) > 10 and n_vars(case) > 13:
+    if case["opts"].get("solution_limit", 1) > 10 and n_vars(case) > (13 if case["family"] == "many_models" else 12):
         case["opts"]["solution_limit"] = 10
     return case
 
@@ -324,7 +325,7 @@ def generate(rng, n, tier, weights):
         elif fam == "colouring":
             out.append(gen_colouring(rng, thorough))
         elif fam == "many_models":
-            out.append(gen_many_models(rng))
+            out.append(gen_many_models(rng, thorough))
         else:
             raise KeyError(fam)
     return [normalize(c) for c in out]
@@ -340,7 +341,9 @@ def impl(case):
     kw = dict(case["opts"])
     if case["assumptions"]:
         kw["assumptions"] = list(case["assumptions"])
+    t0 = time.time()
     r = solve_sat(cl, **kw)
+    dt = time.time() - t0
 
     def items(d):
         return [[int(k), 1 if v else 0] for k, v in sorted(d.items())]
@@ -348,7 +351,7 @@ def impl(case):
     sol = items(r.solution) if isinstance(r.solution, dict) else (None if r.solution is None else "bad")
     sols = None if r.solutions is None else [items(s) for s in r.solutions]
     return {"status": r.status.name, "solution": sol, "solutions": sols, "decisions": r.iterations,
-            "propagations": r.evaluations}
+            "propagations": r.evaluations, "seconds": round(dt, 3)}
 
 
 def is_hard(case):
@@ -369,13 +372,13 @@ def run_impl(cases, ctx):
     import solvor.sat  # noqa: F401  (imported before forking so that import time is not billed to a call)
     outs = [None] * len(cases)
     st = ctx.__dict__.setdefault("_sat_hang", {"confirmed": 0})
-    for hard, limit in ((False, 5.0), (True, 60.0)):
+    for hard, limit in ((False, 5.0), (True, 20.0)):
         idx = [i for i, c in enumerate(cases) if (is_hard(c) or c["family"] == "many_models") == hard]
         if not idx:
             continue
         degraded = st["confirmed"] >= 12
         if degraded:
-            limit = 10.0 if hard else 1.5
+            limit = 5.0 if hard else 1.0
         res = run_pool(impl, [cases[i] for i in idx], timeout=limit)
         for i, r in zip(idx, res):
             outs[i] = r
@@ -509,7 +512,9 @@ def run_cases(ctx, prop, cases, shrink=True):
     """run + judge a batch; report the clauses of `prop`, count the others"""
     outs = run_impl(cases, ctx)
     reqs = [to_request(c, o) for c, o in zip(cases, outs)]
+    t_impl = time.time()
     replies = Driver("Sat").run(reqs, chunks=16)
+    ctx.cov["lean_driver_seconds"] = round(ctx.cov.get("lean_driver_seconds", 0) + time.time() - t_impl, 1)
     for c, o, rp in zip(cases, outs, replies):
         if rp and rp[0] == "error":
             raise core.Infra(f"model rejected request: {rp} for {c}")
@@ -523,6 +528,9 @@ def run_cases(ctx, prop, cases, shrink=True):
             ctx.count(f"opt:{k}={c['opts'][k]}")
         ctx.count("assumptions:" + ("yes" if c["assumptions"] else "no"))
         if o[0] == "ok":
+            if o[1]["seconds"] > ctx.cov.get("slowest_call", {"seconds": 0})["seconds"]:
+                ctx.cov["slowest_call"] = {"seconds": o[1]["seconds"], "family": c["family"], "n_vars": rp[2],
+                                           "clauses": len(c["clauses"]), "opts": c["opts"], "status": o[1]["status"]}
             ctx.count("impl_decisions>0" if o[1]["decisions"] else "impl_decisions=0")
             ctx.cov["cert_checked_impl"] = ctx.cov.get("cert_checked_impl", 0) + len(rp[4]) + len(rp[5])
         mine = [f for f in fails if f[0] == prop]
@@ -547,10 +555,10 @@ def run_cases(ctx, prop, cases, shrink=True):
                     if any(pp == prop and kk == k for pp, kk, _ in judge(c2, o2, rp2)[0]):
                         case_r, o_r, rp_r, extra = c2, o2, rp2, {"shrunk_from": c}
             ctx.fail(FN, k, w, {"case": case_r, "impl": o_r, "model": _reply_doc(rp_r), **extra})
-        if tdiv is not None and not fails:
+        if tdiv is not None and not mine:
             ctx.tdiv(FN, {"case": c, **tdiv, "impl": {k: (v if k != "solutions" or not v or len(v) <= 5 else v[:5] + ["..."])
                                                       for k, v in o[1].items()}})
-        elif o[0] == "ok" and not fails:
+        elif o[0] == "ok" and not mine:
             ctx.cov["r_trace_agree"] = ctx.cov.get("r_trace_agree", 0) + 1
             ms = rp[10][5]
             if ms[0] == o[1]["decisions"] and ms[1] == o[1]["propagations"]:
@@ -619,10 +627,10 @@ def shrink_case(ctx, prop, case, klass, rounds=40):
     import solvor.sat  # noqa: F401
     limit = 3.0 if klass == "no_return" else 10.0
     if klass == "no_return":
-        rounds = 12
+        rounds = 6
     cur = case
     for _ in range(rounds):
-        cands = list(_candidates(cur))[:(48 if klass == "no_return" else 400)]
+        cands = list(_candidates(cur))[:(32 if klass == "no_return" else 400)]
         if not cands:
             break
         outs = run_pool(impl, cands, timeout=limit)
@@ -648,6 +656,7 @@ def shrink_case(ctx, prop, case, klass, rounds=40):
 def run_prop(ctx, prop, budget, weights, n_quick):
     ctx.cov["rule"] = RULE
     ctx.cov.setdefault("cert_checked_impl", 0)
+    ctx.cov["missing_theorems"] = ["cdcl_returns_models [S]", "cdcl_infeasible_sound [S]", "cdcl_fuel_suffices [S]"]
     first = list(edge_cases()) + [c["case"] for c in core.load_corpus("C01")] + [c["case"] for c in core.load_corpus("C02")]
     for c in first:
         c.setdefault("family", "corpus")
@@ -659,14 +668,13 @@ def run_prop(ctx, prop, budget, weights, n_quick):
         chunks = [list(scope_cases(ctx.rng, 3, 3, 3, 2)), list(scope_cases(ctx.rng, 4, 4, 3, 1, cap=25_000))]
     else:
         chunks = [list(scope_cases(ctx.rng, 3, 3, 3, 1, cap=4000))]
-    n = n_quick if budget <= 1 else (n_quick * 5 * budget) // 8  # quick 8000, thorough 60000, search up to 6x
+    n = n_quick if budget <= 1 else 5000 * budget  # quick 16000, thorough 60000, extended search 6x / 3x of that
     per = 1500
     for k in range(0, n, per):
         chunks.append(generate(ctx.rng, min(per, n - k), ctx.tier, weights))
     # a small first chunk, so that a badly broken tree (calls that never return) is reported quickly
     chunks = [chunks[0][:300], chunks[0][300:]] + chunks[1:]
-    import time
-    deadline = ctx.t0 + (75 if ctx.tier == "quick" else 700) * (2 if searching else 1)
+    deadline = ctx.t0 + (75 if ctx.tier == "quick" else 700) * (1.5 if searching else 1)
     for ch in chunks:
         if time.time() > deadline:
             ctx.notes.append(f"stopped early: time budget used up after {ctx.cov['evaluations']} cases "
@@ -676,7 +684,10 @@ def run_prop(ctx, prop, budget, weights, n_quick):
             ctx.notes.append("stopped early: 5 violations (one per failure class) recorded")
             break
         if ch:
+            t1 = time.time()
             run_cases(ctx, prop, ch)
+            ctx.cov.setdefault("chunk_seconds", []).append([ch[0]["family"] if ch[0]["family"].startswith("scope") else "generated",
+                                                            len(ch), round(time.time() - t1, 1)])
     lub = Driver("Sat").run([["luby", 64]])[0]
     ctx.cov["luby_1_to_64"] = lub
 
